@@ -1188,6 +1188,8 @@ def main(outfile):
     import py2lean_sim
     py2lean_sim.main_simulate(os.path.join(os.path.dirname(outfile), 'TranslatedSimulate.lean'),
                               lambda: fn_ast(simulator.Circuit._simulate), write_if_changed)
+    import py2lean_cron                                          # separate module: cron, TimeDate, TimeSpan (C07)
+    py2lean_cron.main_cron(os.path.join(os.path.dirname(outfile), 'TranslatedCron.lean'), sys.modules[__name__])
 
 
 if __name__ == '__main__':
